@@ -494,17 +494,30 @@ def r55_56(db, ctx):
     else:
         f = fs[0]
         R = X.Rec(f)
-        st = [s for s in X.stores(f, R) if norm(s['target'])[0] == 'idx']
+        # loop-form independent: dst[i] / seq[i] through enumerate, an index loop, or dst.iter_mut().zip(seq.iter())
+        from lm import iteralg
+        CA = iteralg.Canon(f, R)
+        cand = []
+        for s_ in X.stores(f, R):
+            tgc = CA.canon(s_['target'])
+            if tgc[0] == 'at' and iteralg.is_pos(tgc[2]):
+                cand.append((tgc, CA.canon(s_['value']), s_))
         ok = False
-        why = f'{len(st)} stores'
-        if len(st) == 1:
-            tg, v = norm(st[0]['target']), norm(st[0]['value'])
-            b = m(('idx', '$dst', ('fld', ('elem', ('call~', 'enumerate', ('$it',)), '$L'), '0')), tg)
-            okv = 'Symbol::from_ascii' in X.canon(v) and b is not None and X.canon(('fld', ('elem', ('call', 'core::iter::traits::iterator::Iterator::enumerate', (b['$it'],)), b['$L']), '1')) in X.canon(v)
-            if b is not None and okv and norm(b['$dst']) == ('p', 3):
+        why = f'{len(cand)} element stores'
+        if len(cand) == 1:
+            tgc, vc, s_ = cand[0]
+            L = tgc[2][1]
+            reads = [x for x in X.walk(vc) if x[0] == 'call' and x[1].endswith('Symbol::from_ascii') and len(x[2]) == 1]
+            src_ok = len(reads) == 1 and m(('at', '$seq', tgc[2]), reads[0][2][0]) is not None
+            seqe = m(('at', '$seq', tgc[2]), reads[0][2][0])['$seq'] if src_ok else None
+            # the stored value is the success payload of from_ascii(..)? : nothing else is applied to it
+            payload = vc == ('fld', ('down', ('call', 'core::ops::try_trait::Try::branch', (reads[0],)), 'Continue'), '0') if reads else False
+            ext = CA.extents.get(L, [])
+            whole = bool(ext) and seqe is not None and all(c_[0] == 'len' and c_[1] in (seqe, tgc[1]) for c_ in ext) and any(c_[1] == seqe for c_ in ext)
+            if tgc[1] == ('p', 3) and src_ok and payload and whole and seqe in (('p', 2), ('call', 'core::convert::AsRef::as_ref', (('p', 2),))):
                 ok = True
             else:
-                why = f'{X.show(tg, 80)} := {X.show(v, 100)}'
+                why = f'{X.show(tgc, 80)} := {X.show(vc, 100)} over {ext}'
         (ctx.ok if ok else ctx.fail)('R5.5', f, 'dst[i] = from_ascii(seq[i])?', *([['enumerate over the input bytes']] if ok else [why]))
     ctx.rule('R5.6', 'EncodedSequence::encode / from_str use the dispatching pipeline; Display writes as_char of every symbol in order; dispatcher arms (R1.5)')
     f = db.fn('lightmotif::seq::EncodedSequence::encode')
